@@ -23,12 +23,11 @@ typedef struct {
   int_t g_cfg_strf_info;
   equed_t g_cfg_equed;
   void *g_AC_token;
+  /* pool mode (STUB_POOLS): the objects the callees would allocate */
+  SuperMatrix pool_AA; NCformat pool_AAstore; NCPformat pool_ACstore;
+  double pool_utime[NPHASES]; flops_t pool_ops[NPHASES]; procstat_t pool_procstat[64]; char pool_opt[3];
 } drv_ghost_t;
-#ifdef GX_DEFINE
-drv_ghost_t GH_;
-#else
-extern drv_ghost_t GH_;
-#endif
+extern drv_ghost_t GH_;   /* defined in drv_stubs.c */
 #define g_seq (GH_.g_seq)
 #define g_xerbla_calls (GH_.g_xerbla_calls)
 #define g_xerbla_arg (GH_.g_xerbla_arg)
@@ -96,4 +95,11 @@ extern drv_ghost_t GH_;
 #define g_cfg_strf_info (GH_.g_cfg_strf_info)
 #define g_cfg_equed (GH_.g_cfg_equed)
 #define g_AC_token (GH_.g_AC_token)
+#define pool_AA (GH_.pool_AA)
+#define pool_AAstore (GH_.pool_AAstore)
+#define pool_ACstore (GH_.pool_ACstore)
+#define pool_utime (GH_.pool_utime)
+#define pool_ops (GH_.pool_ops)
+#define pool_procstat (GH_.pool_procstat)
+#define pool_opt (GH_.pool_opt)
 #endif
